@@ -10,6 +10,7 @@ lists over any ordered field (all lengths).  The coded rules themselves (`Fn.con
 -/
 import OdlModel.Lemmas.Functionals
 import OdlModel.Lemmas.WeightedSpace
+import OdlModel.Model.Prox
 import Mathlib.Analysis.InnerProductSpace.Basic
 import Mathlib.Algebra.Order.Field.Basic
 import Mathlib.Algebra.Order.Group.MinMax
@@ -169,11 +170,14 @@ theorem C08.conj_infconv_ineq {f g f' g' h : E → ℝ}
     linarith
   linarith
 
-/-- **Moreau identity** behind `proximal_convex_conj` / `FunctionalDefaultConvexConjugate`:
-if `p` is the resolvent of `T = ∂f` at `x` with step `σ` (`p = prox_{σ f}(x)`), then
-`q = (x − p)/σ` is the resolvent of the inverse relation (`∂f*`) at `x/σ` with step `1/σ`
-(`q = prox_{f*/σ}(x/σ)`), and `p + σ q = x`. -/
-theorem C08.moreau_identity (T : E → E → Prop) {σ : ℝ} (hσ : 0 < σ) (x p : E)
+/-- Bookkeeping lemma (NOT the Moreau decomposition of any coded proximal): the resolvent
+condition `(x − p)/σ ∈ T p` IS the resolvent condition of the inverse relation at `x/σ` with
+step `1/σ` for the point `(x − p)/σ`, and `p + σ·((x − p)/σ) = x`.  It only re-reads the
+hypothesis; the content of the Moreau clause is `C08.resolvent_unique` (uniqueness),
+`C07.prox_moreau` (the coded `proximal_convex_conj` is the proximal of the conjugate) and
+`C08.moreau_l1_coded` / `C08.moreau_l2sq_coded` (the decomposition for the hand-coded
+independent pairs of the model). -/
+theorem C08.moreau_inverse_resolvent_bookkeeping (T : E → E → Prop) {σ : ℝ} (hσ : 0 < σ) (x p : E)
     (h : IsRes T σ x p) :
     IsRes (fun y z => T z y) (1 / σ) ((1 / σ) • x) ((1 / σ) • (x - p)) ∧
       p + σ • ((1 / σ) • (x - p)) = x := by
@@ -248,7 +252,7 @@ theorem C08.l2_conj :
 
 /-- `QuadraticForm.convex_conj`: for symmetric positive `A` with inverse `Ainv`,
 `(⟨x, Ax⟩ + ⟨b, x⟩ + c)*(y) = ¼⟨y − b, A⁻¹(y − b)⟩ − c`, with equality at `y = ∇f(x) = 2Ax + b`
-(the factor ¼ was missing before the fix of finding F5, see `quadform_conj_without_quarter_fails`;
+(the factor ¼ was missing before the fix of finding F5, see `quadform_conj_old_fails`;
 `C08.conj_sound` ties this formula to the coded construction). -/
 theorem C08.quadform_conj (A Ainv : E →ₗ[ℝ] E) (b : E) (c : ℝ)
     (hsym : ∀ u v, ⟪A u, v⟫ = ⟪u, A v⟫) (hpos : ∀ u, 0 ≤ ⟪u, A u⟫) (hinv : ∀ u, A (Ainv u) = u) :
@@ -372,15 +376,31 @@ theorem C08.l1_linf_conj_eq (w x : List K) :
             rw [mul_assoc, (hs x0).2]
 end lists
 
-/-- Sensitivity (the pre-fix formula of finding F5): without the factor ¼ the pair
-`(⟨x, x⟩, ⟨y, y⟩)` is not a conjugate pair — equality fails at `y = ∇f(x) = 2x` (`x = 1`:
-`1 + 4 ≠ 2`). -/
-theorem C08.quadform_conj_without_quarter_fails :
-    ¬ ConjPair (fun _ : ℝ => True) (fun x => ⟪x, x⟫) (fun _ => True) (fun y => ⟪y, y⟫)
-      (fun x y => y = (2 : ℝ) • x) := by
-  intro h
-  have := (h.2 1 ((2 : ℝ) • 1) rfl).2.2
-  norm_num at this
+namespace OdlModel.C08
+/-- The conjugate `QuadraticForm.convex_conj` built BEFORE fix 8145920 (no factor 1/4), as a
+variant of the model's construction (case without vector): operator `A.inverse`, constant `-c`. -/
+def quadConjOld {V K : Type} [Neg K] (o : VecOps V K) (A At Ainv AinvT : V → V) (c : K) : Fn V K :=
+  .quad Ainv AinvT A At false o.zero (-c)
+end OdlModel.C08
+
+/-- Sensitivity, on the executed model: with the OLD construction `quadConjOld` the
+Fenchel–Young equality at `y = ∇f(x)` fails (`rn(1)`, `f(x) = ⟨x, x⟩`, `x = 1`: `1 + 4 ≠ 2`),
+while the current `Fn.conj` gives equality there (`1 + 1 = 2`). -/
+theorem C08.quadform_conj_old_fails :
+    (Fn.quad id id id id false [0] 0 : Fn (List ℚ) ℚ).value (listOps [1]) [1]
+      + (quadConjOld (listOps ([1] : List ℚ)) id id id id 0).value (listOps [1])
+          ((Fn.quad id id id id false [0] 0 : Fn (List ℚ) ℚ).grad (listOps [1]) [1])
+      ≠ (listOps ([1] : List ℚ)).inner [1]
+          ((Fn.quad id id id id false [0] 0 : Fn (List ℚ) ℚ).grad (listOps [1]) [1]) ∧
+    ∃ g, (Fn.quad id id id id false [0] 0 : Fn (List ℚ) ℚ).conj (listOps [1]) = some g ∧
+      (Fn.quad id id id id false [0] 0 : Fn (List ℚ) ℚ).value (listOps [1]) [1]
+        + g.value (listOps [1]) ((Fn.quad id id id id false [0] 0 : Fn (List ℚ) ℚ).grad (listOps [1]) [1])
+      = (listOps ([1] : List ℚ)).inner [1]
+          ((Fn.quad id id id id false [0] 0 : Fn (List ℚ) ℚ).grad (listOps [1]) [1]) := by
+  refine ⟨?_, _, rfl, ?_⟩
+  · simp [quadConjOld, Fn.value, Fn.grad, listOps, innerW]
+    norm_num
+  · simp [Fn.value, Fn.grad, listOps, innerW, two]
 
 /-! ### The coded rules on expression trees -/
 namespace OdlModel.C08
@@ -1533,3 +1553,56 @@ example :
   · intro t' h
     exact ⟨C08.conj_sound_weighted _ _ t' hreg h, C08.conj_sound_eq_weighted _ _ t' hreg rfl h⟩
 end example_weighted
+
+/-! ### Moreau decomposition for the hand-coded proximal pairs (C07's coded formulas) -/
+section moreau_coded
+variable {K : Type} [Field K] [LinearOrder K] [IsStrictOrderedRing K]
+
+/-- **Moreau decomposition for the hand-coded L1 pair** (entry-wise; both proximals act entry by
+entry, with any weights): `ProximalL1` (`L1Norm.proximal(σ)`, C07's `softCode`) and
+`ProximalConvexConjL1` (`IndicatorLpUnitBall(∞).proximal(1/σ)`, C07's `ccL1Code`, step-free)
+satisfy `prox_{σ f}(x) + σ·prox_{f*/σ}(x/σ) = x`. -/
+theorem C08.moreau_l1_coded (σ x : K) (hσ : 0 < σ) :
+    OdlModel.Prox.softCode σ x 0 + σ * OdlModel.Prox.ccL1Code 1 0 (x / σ) = x := by
+  have hne : σ ≠ 0 := ne_of_gt hσ
+  unfold OdlModel.Prox.softCode OdlModel.Prox.ccL1Code OdlModel.Prox.maxK OdlModel.Prox.absK
+  simp only [sub_zero, div_one]
+  have hdiv : (x / σ < 0) ↔ x < 0 := by
+    constructor
+    · intro h; by_contra h'; exact absurd h (not_lt.mpr (div_nonneg (le_of_not_gt h') hσ.le))
+    · intro h; exact div_neg_of_neg_of_pos h hσ
+  by_cases hx : x < 0
+  · have hx' : x / σ < 0 := hdiv.mpr hx
+    simp only [hx, hx', if_true]
+    have e : -(x / σ) = -x / σ := by ring
+    rw [e]
+    by_cases h1 : -x / σ ≤ 1
+    · simp only [h1, if_true, div_one]; field_simp; ring
+    · simp only [h1, if_false]
+      have hx0 : x ≠ 0 := ne_of_lt hx
+      have hnx : -x ≠ 0 := neg_ne_zero.mpr hx0
+      field_simp; ring
+  · have hx' : ¬ x / σ < 0 := fun h => hx (hdiv.mp h)
+    simp only [hx, hx', if_false]
+    by_cases h1 : x / σ ≤ 1
+    · simp only [h1, if_true, div_one]; field_simp; ring
+    · simp only [h1, if_false]
+      have hx0 : x ≠ 0 := by
+        intro h0; rw [h0, zero_div] at h1; exact h1 zero_le_one
+      field_simp; ring
+
+/-- **Moreau decomposition for the hand-coded L2² pair**: `ProximalL2Squared`
+(`L2NormSquared.proximal(σ)`, C07's `l2sqCode`) and the proximal of the coded conjugate
+`(1/4)·L2NormSquared` (`FunctionalLeftScalarMult.proximal`: `L2NormSquared.proximal(σ'·1/4)`,
+`σ' = 1/σ`). -/
+theorem C08.moreau_l2sq_coded (σ x : K) (hσ : 0 < σ) :
+    OdlModel.Prox.l2sqCode 1 σ x 0 + σ * OdlModel.Prox.l2sqCode 1 (1 / σ * (1 / 4)) (x / σ) 0 = x := by
+  have hne : σ ≠ 0 := ne_of_gt hσ
+  unfold OdlModel.Prox.l2sqCode
+  simp only [mul_zero, add_zero, mul_one]
+  have h1 : (1 : K) + (1 + 1) * σ ≠ 0 := by positivity
+  have h2 : (1 : K) + (1 + 1) * (1 / σ * (1 / 4)) ≠ 0 := by positivity
+  field_simp
+  ring
+
+end moreau_coded
